@@ -1,4 +1,4 @@
-SPECIFICATION Spec
+SPECIFICATION SpecP
 CONSTANTS
   MaxN = 4
   Steps = {1, 2, 3}
